@@ -26,6 +26,8 @@ class Frame:
         self.func = func
         self.node = func.node
         self.qualname = func.qualname
+        if contract is not None and getattr(contract, "key", contract.target) != contract.target and contract.target == func.qualname:
+            self.qualname = contract.key  # a variant contract of the same function: own obligation names
         self.contract = contract
         self.loops = loops_of(func.node) if not isinstance(func.node, ast.Lambda) else []
         self.yielded = None
@@ -745,6 +747,14 @@ class CallMixin:
     def apply_contract(self, c, f, bound: dict) -> V:
         caller = self.frames[-1].qualname if self.frames else "<top>"
         line = self.cur_line
+        if self.spec_mode:
+            # inside a quantified expression (any/all over a symbolic sequence) a call can only be
+            # a term: the contract's functional form value(params); that the call cannot raise
+            # there is the enclosing contract's stated precondition
+            if "value" in c.funcs:
+                self.called.add(c.target)
+                return self.eval_contract_fn(c, "value", dict(bound))
+            raise Unsupported(f"call of {c.target} inside a quantified expression: its contract has no functional form (value)")
         for pn, kind in c.params.items():
             v = bound.get(pn)
             if kind == "opaque:Chunks" and v is not None and not isinstance(v, VOpaque):
